@@ -791,7 +791,12 @@ func (g *vgen) timev(f *ffield) time.Time {
 	}
 	loc := time.UTC
 	if rng.IntN(8) == 0 {
-		loc = time.FixedZone("", (rng.IntN(28*60)-14*60)*60)
+		// A zone with offset 0 other than time.UTC is never used: it is written as "Z" and read back as UTC,
+		// and for the instant 0001-01-01T00:00:00Z that turns a value that is not the Go zero value into the
+		// zero value, which 'optional' elides on the second Marshal (documented elision, same in Go).
+		if off := (rng.IntN(28*60) - 14*60) * 60; off != 0 {
+			loc = time.FixedZone("", off)
+		}
 	}
 	var t time.Time
 	switch rng.IntN(6) {
@@ -804,6 +809,9 @@ func (g *vgen) timev(f *ffield) time.Time {
 	}
 	if y := t.Year(); y < lo || y > hi {
 		t = time.Date(lo, 6, 15, 12, 0, 0, 0, time.UTC)
+	}
+	if _, off := t.Zone(); off == 0 && t.Equal(time.Time{}) {
+		t = time.Time{} // the zero instant exists only as the Go zero value
 	}
 	return t
 }
